@@ -121,6 +121,17 @@ def linear_form(t):
     return None
 
 
+def _divides_a_variable(t):
+    """A division whose dividend mentions a symbol, reached through arithmetic operators and ITE branches only."""
+    if t[0] == "DIV":
+        return any(x[0] == "SYMBOL" for x in subterms(t[2][0])) or _divides_a_variable(t[2][0])
+    if t[0] in ("PLUS", "MINUS", "TIMES"):
+        return any(_divides_a_variable(c) for c in t[2])
+    if t[0] == "ITE":
+        return _divides_a_variable(t[2][1]) or _divides_a_variable(t[2][2])
+    return False
+
+
 def outside_difference_logic(b, sort):
     """An arithmetic atom that is certainly not a difference constraint (x - y ~ c): more than two variables, a
     coefficient other than +1 / -1, or two variables of the same sign.  Atoms this cannot normalise are not judged."""
@@ -133,6 +144,8 @@ def outside_difference_logic(b, sort):
                 continue
             # a term-level ITE stands for either branch (the atom is a difference constraint only if it is one for
             # every choice of branches)
+            if _divides_a_variable(t[2][0]) or _divides_a_variable(t[2][1]):
+                return t            # an integer division of a term with variables is no part of a difference constraint
             ls, rs = linear_alternatives(t[2][0]), linear_alternatives(t[2][1])
             if ls is None or rs is None:
                 continue
@@ -303,6 +316,9 @@ def difference_shaped_atoms():
                  ("MINUS", (), (x, x)), ("PLUS", (), (z, ("TIMES", (), (km, w)))), ("MINUS", (), (k1, x)), z,
                  ("ITE", (), (("SYMBOL", ("dlp", BOOL), ()), z, w)), ("ITE", (), (("SYMBOL", ("dlp", BOOL), ()), ("MINUS", (), (x, y)), ("MINUS", (), (z, w)))),
                  ("ITE", (), (("SYMBOL", ("dlp", BOOL), ()), x, k1)), ("MINUS", (), (x, ("ITE", (), (("SYMBOL", ("dlp", BOOL), ()), y, z))))]
+        if T == INT:
+            # integer division by a constant (the Real one is a product at construction)
+            sides += [("DIV", (), (x, k2)), ("DIV", (), (("MINUS", (), (x, y)), k2))]
         for op in ("LE", "LT", "EQUALS"):
             for l in sides:
                 for r in sides:
